@@ -246,7 +246,8 @@ class Sweep(object):
         self.failures = []
         self.cases = []        # model queries: (kind, seg, field, comp, spelling, code, n1, n2)
         self.counts = {'reads': 0, 'writes': 0, 'deletes': 0, 'negatives': 0, 'aliases_nontrivial': 0,
-                       'same_exception_writes': 0, 'untyped_leaf_fields': 0, 'standalone_field_parents': 0}
+                       'same_exception_writes': 0, 'untyped_leaf_fields': 0, 'standalone_field_parents': 0,
+                       'same_child_probes': 0}
         self.distinct = set()
         self.samples = []
         self.limit = limit
@@ -352,6 +353,8 @@ class Sweep(object):
         self.counts['deletes'] += 1
         if len(cw) == 1:
             self.counts['same_exception_writes'] += 1
+        if path is None and len(w) != 1:
+            self.read_write_delete_same(make, pk, pname, mode, sp, canon_sp)
         if w != cw:
             self.fail('alias-write-differs', 'writing through a spelling of a child gives a different element '
                       'than writing through its HL7 name', parent_kind=pk, parent=pname, mode=mode, spelling=sp,
@@ -360,6 +363,47 @@ class Sweep(object):
             self.fail('alias-delete-differs', 'deleting through a spelling of a child gives a different element '
                       'than deleting through its HL7 name', parent_kind=pk, parent=pname, mode=mode, spelling=sp,
                       canonical=canon_sp, observed=repr(d)[:600], expected=repr(cd)[:600])
+
+    def read_write_delete_same(self, make, pk, pname, mode, sp, canon_sp):
+        """With two repetitions of the child in place, a read, a write and a delete through spelling sp
+        must all address one and the same child (the one the read returns), identified by object identity."""
+        try:
+            p = make()
+            setattr(p, canon_sp, 'R1')
+            first = getattr(p, canon_sp)[0]
+            second = type(first)(first.name, version=first.version, validation_level=first.validation_level)
+            second.value = 'R2'
+            p.add(second)
+            listed = [c for c in p.children if c.name == first.name]
+            if len(listed) != 2 or listed[0] is not first or listed[1] is not second:
+                return
+        except Exception:   # noqa  (parents that take no second repetition are another property's business)
+            return
+        self.counts['same_child_probes'] += 1
+        what = None
+        try:
+            read = getattr(p, sp)[0]
+            if read is not first:
+                what = 'the read returns %r, not the first repetition' % (read,)
+            else:
+                setattr(p, sp, 'W1')
+                now = [c for c in p.children if c.name == first.name]
+                vals = [c.to_er7() for c in now]
+                if vals != ['W1', 'R2']:
+                    what = 'after writing W1 the repetitions encode %r, expected [W1, R2]' % (vals,)
+                else:
+                    delattr(p, sp)
+                    left = [c for c in p.children if c.name == first.name]
+                    if len(left) != 1 or left[0] is not second:
+                        what = 'after the delete the repetitions left encode %r, expected [R2] ' \
+                               '(the delete removed another child than the read and the write addressed)' \
+                               % ([c.to_er7() for c in left],)
+        except Exception as ex:   # noqa
+            what = 'raised %s: %s' % (type(ex).__name__, str(ex)[:200])
+        if what:
+            self.fail('read-write-delete-address-different-children', 'with two repetitions in place, a read, a '
+                      'write and a delete through one spelling do not address one and the same child: ' + what,
+                      parent_kind=pk, parent=pname, mode=mode, spelling=sp, canonical=canon_sp)
 
     # -- names that designate nothing ---------------------------------------------------------------
     def negative(self, make, pk, pname, sp, why, kind, sn, fn, cn, cls, extra=None, prep=None, model=True):
